@@ -29,8 +29,18 @@ class Compiled:
         self.vhdl = compile_source(self.src, "Top")  # raises Rejected
         self.design = analyse(self.vhdl)
 
-    def sim(self):
-        return Sim(self.design, "top")
+    def sim(self, first_row=None):
+        """test-bench style start: clock low, reset inactive, inputs at their first values"""
+        spec = self.spec
+        init = {}
+        if spec["ctx"]["type"] in ("seq", "coro"):
+            init["clk"] = 0
+            r = spec["ctx"].get("reset")
+            if r:
+                init["rst"] = 1 if r.get("active_low") else 0
+        for o in spec["inputs"]:
+            init[o["name"]] = (first_row or {}).get(o["name"], 0)
+        return Sim(self.design, "top", inputs=init)
 
 
 def reject_class(e: Rejected):
@@ -75,7 +85,7 @@ def compare(sim, exp, spec):
 def run_trace(cd: Compiled, stim, resets=None):
     """-> (status, info).  status: ok | unspecified | mismatch | sim_error"""
     spec = cd.spec
-    sim = cd.sim()
+    sim = cd.sim(stim[0] if stim else None)
     m = Machine(spec)
     steps = 0
     for k, row in enumerate(stim):
